@@ -70,7 +70,9 @@ CLAIMED["C19"] = {
             "(any count, empty arguments and every metacharacter included) and every pipeline length: the rendered text parses, "
             "under a lexer model of the POSIX sh fragment, to exactly the original stages. The renderer model is compared "
             "string-for-string with format!(\"{:?}\") of the real Exec/Pipeline on every run, the real /bin/sh evaluates the "
-            "implementation's own text (direct oracle), and the lexer model itself is validated against /bin/sh.",
+            "implementation's own text (direct oracle), and the lexer model itself is validated against /bin/sh. "
+            "c19_env_roundtrip: with environment overrides (NAME=value words in front of the command, names being shell names) the "
+            "shell strips exactly the printed assignments, values intact, and still runs exactly the original program and arguments.",
     "note": COMMON_NOTE + "Sh.parse is a model of sh (validated against dash, not proved); the theorem assumes the program name is "
             "not an sh reserved word (known finding C19:command-is-sh-reserved-word); env=None rendering only.",
 }
